@@ -16,7 +16,8 @@ func VectorAggregation(
 	expr *logql.VectorAggregationExpr,
 ) (StepIterator, error) {
 	var (
-		grouper     = nopGrouper
+		// Without a grouping clause all series form one group with an empty label set.
+		grouper     grouperFunc = AggregatedLabels.By
 		groupLabels []logql.Label
 	)
 	if g := expr.Grouping; g != nil {
